@@ -165,6 +165,13 @@ class SimSocket(object):
 
     def setsockopt(self, *a):
         self._check()
+        if len(a) == 3 and a[1] == _real_socket.SO_LINGER:
+            import struct as _st
+            try:
+                on, secs = _st.unpack("ii", a[2])
+            except Exception:
+                on, secs = 0, 0
+            self._linger0 = bool(on) and secs == 0
 
     def getsockopt(self, *a):
         return 0
@@ -210,8 +217,8 @@ class SimSocket(object):
 
     def getpeername(self):
         self._check()
-        if self._of.peer_addr is None:
-            raise _err(errno.ENOTCONN)
+        if self._of.peer_addr is None or getattr(self._of, "aborted", False):
+            raise _err(errno.ENOTCONN)     # also after the peer reset the connection (even while it sat in the backlog)
         return self._of.peer_addr
 
     def listen(self, backlog=128):
@@ -220,6 +227,7 @@ class SimSocket(object):
 
     def accept(self):
         self._check()
+        deliver_signals()
         _point("sock.accept", self._of.name)
         self._check()
         of = self._of
@@ -230,6 +238,7 @@ class SimSocket(object):
             if self._timeout == 0.0 or s is None:
                 raise _err(errno.EAGAIN)
             ok = s.block(lambda: bool(of.backlog) or of.closed or self._closed, self._deadline(), "sock.accept.wait", of.name)
+            deliver_signals()
             if self._closed or of.closed:
                 raise _err(errno.EBADF)
             if not ok or not of.backlog:
@@ -404,6 +413,9 @@ class SimSocket(object):
             del of.backlog[:]
         if of.peer is not None:
             p = of.peer
+            if getattr(self, "_linger0", False) and not p.closed:
+                p.reset = True         # abortive close (SO_LINGER 0): RST instead of FIN
+                p.aborted = True
             if of.rx and not p.closed:
                 p.reset = True         # closing with unread data resets the connection
             p.peer_wr_closed = True
@@ -575,3 +587,194 @@ class _QueueModule(object):
     def __getattr__(self, name):
         import queue
         return getattr(queue, name)
+
+
+# ====================================================================== processes (fork emulation)
+class ProcExit(BaseException):
+    """os._exit() inside an emulated child process"""
+
+
+class Proc(object):
+    def __init__(self, pid, parent):
+        self.pid = pid
+        self.parent = parent
+        self.children = []
+        self.state = "running"      # running | zombie | reaped
+        self.fds = []               # SimSocket objects this process inherited (closed at exit)
+        self.handlers = {}          # signum -> handler
+        self.pending = []           # pending signal numbers
+        self.exit_code = None
+
+
+class ProcTable(object):
+    def __init__(self):
+        self.next_pid = 100
+        self.root = Proc(1, None)
+        self.all = [self.root]
+
+    def zombies(self):
+        return [p.pid for p in self.all if p.state == "zombie"]
+
+    def running_children(self, proc=None):
+        proc = proc or self.root
+        return [p.pid for p in proc.children if p.state == "running"]
+
+
+PROCS = [None]
+
+
+def procs():
+    if PROCS[0] is None:
+        PROCS[0] = ProcTable()
+    return PROCS[0]
+
+
+def reset_procs():
+    PROCS[0] = ProcTable()
+    return PROCS[0]
+
+
+def current_proc():
+    lt = S.current_lthread()
+    p = getattr(lt, "proc", None) if lt is not None else None
+    return p if p is not None else procs().root
+
+
+def deliver_signals():
+    """run pending signal handlers of the current process (called from the accept loop's system calls: CPython runs
+    Python-level handlers in the main thread between bytecodes; PEP 475 then retries the interrupted call)"""
+    p = current_proc()
+    while p.pending:
+        signum = p.pending.pop(0)
+        h = p.handlers.get(signum)
+        if callable(h):
+            h(signum, None)
+
+
+def _dup(sock):
+    d = SimSocket(sock.family, sock.type, sock.proto, _of=sock._of)
+    d._timeout = sock._timeout
+    return d
+
+
+class SimOSModule(object):
+    """stand-in for the `os` module inside rpyc.utils.server: fork / waitpid / _exit / getpid emulated"""
+    WNOHANG = 1
+
+    def __getattr__(self, name):
+        import os as _os
+        return getattr(_os, name)
+
+    def getpid(self):
+        return current_proc().pid
+
+    def fork(self):
+        """emulates fork() for the one call shape rpyc uses: `pid = os.fork()` as the first statement of a method
+        `_accept_method(self, sock)`.  The child is a new logical thread that re-enters the same method on a shallow
+        copy of `self` whose sockets are duplicates (same open file descriptions, new descriptors), with fork()
+        returning 0 there; os._exit() ends it and closes every descriptor it still holds."""
+        import copy
+        import sys as _sys
+        lt = S.current_lthread()
+        if getattr(lt, "fork_returns_zero", False):
+            lt.fork_returns_zero = False
+            return 0
+        s = S.current_sched()
+        parent = current_proc()
+        frame = _sys._getframe(1)
+        srv = frame.f_locals["self"]
+        sock = frame.f_locals["sock"]
+        method = frame.f_code.co_name
+        tab = procs()
+        child = Proc(tab.next_pid, parent)
+        tab.next_pid += 1
+        tab.all.append(child)
+        parent.children.append(child)
+        child.handlers = dict(parent.handlers)
+        csrv = copy.copy(srv)
+        mapping = {}
+        csrv.listener = _dup(srv.listener)
+        child.fds.append(csrv.listener)
+        csrv.clients = set()
+        for c in list(srv.clients) + [sock]:
+            if c not in mapping and not c._closed:
+                mapping[c] = _dup(c)
+                child.fds.append(mapping[c])
+        for c in srv.clients:
+            if c in mapping:
+                csrv.clients.add(mapping[c])
+        csock = mapping.get(sock, sock)
+
+        def child_main():
+            me = S.current_lthread()
+            me.proc = child
+            me.fork_returns_zero = True
+            try:
+                getattr(type(srv), method)(csrv, csock)
+            except ProcExit:
+                pass
+            finally:
+                for f in child.fds:
+                    try:
+                        if not f._closed:
+                            f._close(from_del=True)
+                    except Exception:
+                        pass
+                child.state = "zombie"
+                sig = getattr(_real_signal, "SIGCHLD", 17)
+                parent.pending.append(sig)
+
+        t = s.spawn(child_main, "proc-%d" % child.pid)
+        t.proc = child
+        _point("fork", child.pid)
+        return child.pid
+
+    def _exit(self, code=0):
+        p = current_proc()
+        p.exit_code = code
+        raise ProcExit()
+
+    def waitpid(self, pid, options=0):
+        p = current_proc()
+        kids = [c for c in p.children if c.state != "reaped"]
+        if not kids:
+            raise _err(errno.ECHILD)
+        for c in kids:
+            if c.state == "zombie" and (pid in (-1, 0) or pid == c.pid):
+                c.state = "reaped"
+                return c.pid, (c.exit_code or 0) << 8
+        if options & self.WNOHANG:
+            return 0, 0
+        s = S.current_sched()
+        s.block(lambda: any(c.state == "zombie" for c in kids), None, "waitpid")
+        return self.waitpid(pid, options)
+
+
+import signal as _real_signal     # noqa: E402
+
+
+class SimSignalModule(object):
+    def __getattr__(self, name):
+        return getattr(_real_signal, name)
+
+    def __bool__(self):
+        return True
+
+    def signal(self, signum, handler):
+        p = current_proc()
+        old = p.handlers.get(signum, _real_signal.SIG_DFL)
+        p.handlers[signum] = handler
+        return old
+
+    def siginterrupt(self, signum, flag):
+        pass
+
+
+sim_os = SimOSModule()
+sim_signal = SimSignalModule()
+
+
+def install_processes():
+    import rpyc.utils.server as sv
+    sv.os = sim_os
+    sv.signal = sim_signal
